@@ -35,6 +35,12 @@ if __name__ == "__main__":
                 continue
             if isinstance(res, str):
                 print(d, res); continue
+            if "/wt/N" in d or "/wt/B" in d or "seeded_neutral" in d:
+                bad = {p: x for p, x in res.items() if x[0] != 0}
+                print(f"{d}: NEUTRAL {'clean' if not bad else 'FALSE-ALARM'}")
+                for p, x in bad.items():
+                    print("      ", p, x)
+                continue
             own = ("C" + os.path.basename(os.path.dirname(os.path.dirname(d)))[1:]) if "/out/" in d + "/" else json.load(open(os.path.join(d, "meta.json")))["property"]
             v = [p for p, x in res.items() if x[0] == 1]
             u = [p for p, x in res.items() if x[0] == 2]
